@@ -84,6 +84,7 @@ type FuncSpec struct {
 	Ensures     []Clause
 	Modifies    []string
 	HasModifies bool
+	TrustFrame  bool // modifies clause assumed (listed), other obligations of the body are checked
 	ModWrapperN string
 	ModWrapper  *ssa.Function
 	ModParams   []ClauseParam
@@ -118,7 +119,7 @@ type ContractFile struct {
 	Imports []string
 }
 
-var keywordRe = regexp.MustCompile(`^(func|assume|ghost|spec|proc|lemma|import|requires|ensures|modifies|loop|invariant|decreases|safe|inline|overflow|float|alloc|assert|havoc|uninterpreted)\b`)
+var keywordRe = regexp.MustCompile(`^(func|assume|ghost|spec|proc|lemma|import|requires|ensures|modifies|loop|invariant|decreases|safe|inline|overflow|float|alloc|assert|havoc|uninterpreted|trust)\b`)
 var labelRe = regexp.MustCompile(`^([A-Za-z_][A-Za-z0-9_]*):([^:=].*)$`)
 
 func parseContractFile(path string) (*ContractFile, error) {
@@ -295,6 +296,11 @@ func parseContractFile(path string) (*ContractFile, error) {
 				cur.Havoc = true
 			case "uninterpreted":
 				cur.Uninterp = true
+			case "trust":
+				// "trust frame": the modifies clause is used by callers but not checked against the body
+				if strings.TrimSpace(rest) == "frame" {
+					cur.TrustFrame = true
+				}
 			case "float":
 				cur.FloatReal = strings.TrimSpace(rest) == "real"
 			case "alloc":
